@@ -9,7 +9,7 @@ RULE = ("chains of k = 1..4 (quick) / 1..8 (thorough) sequential requests on one
         "and buffered reads), random look-ahead (the request parser reads greedily, so hand-offs happen with 0..full-buffer bytes buffered, "
         "ending mid-header / mid-payload / mid-padding), buffer sizes 64..8192 and read chunk patterns; plus into_input at record boundaries; plus long (256..1025-byte) records skipped byte by byte with is_record_boundary / into_input / conversion asked at every amount of outstanding payload. "
         "Oracle: every request of the chain shows exactly its own id/role/flags/environment and delivered stream bytes are a prefix of its own "
-        "stream. Non-trivial: k >= 2 or partial reading; distinct = distinct case lines.")
+        "stream. Class aborted-in-chain: requests begun and aborted during Params (AbortRequest with body and padding) in front of requests of the chain. Non-trivial: k >= 2 or partial reading; distinct = distinct case lines.")
 ASSUMPTIONS = ["each request's pairs satisfy the documented buffer bound"]
 BOTH_PROFILES = True
 
@@ -18,7 +18,7 @@ def release_view(line, out):
     return out
 
 
-def gen_chain(rng, k, B):
+def gen_chain(rng, k, B, aborted_rate=0):
     recs_all, ops, meta, ends = [], [], [], []
     for j in range(k):
         rid = rng.choice([1, 2, 300, 65535])
@@ -26,6 +26,13 @@ def gen_chain(rng, k, B):
         flags = rng.choice([0, 1, 255])
         pairs = rand_pairs(rng, rng.randrange(0, 4), min(B - 13, 40))
         recs, _ = preamble(rng, rid, role, flags, pairs, junk_rate=0.15, idle=rng.choice([0, 0, 1]))
+        if aborted_rate and rng.random() < aborted_rate:
+            # in front of it the client starts another request and aborts it during Params - the AbortRequest record may carry a body
+            # and padding, like any record -: nothing is handed out for it, the request behind it is the next one
+            rid0 = rng.choice([1, 9, 300])
+            part = nv_all(rand_pairs(rng, 1, 12))
+            ab = record(ABORT, rid0, [rng.randrange(256) for _ in range(rng.choice([0, 1, 8, 8, 13]))], rng.choice([0, 0, 3]))
+            recs = [begin(rid0, rng.choice([1, 2, 3]), rng.choice([0, 1]), 0), record(PARAMS, rid0, part[:rng.randrange(1, len(part) + 1)], rng.choice([0, 2]))] + [ab] + recs
         contents = {t: [rng.randrange(256) for _ in range(rng.choice([0, 3, 40, rng.randrange(0, 200)]))] for t in ROLE_STREAMS[role]}
         srecs = streams_part(rng, rid, role, contents, junk_rate=0.15, no_begin=True)
         recs_all += recs + srecs
@@ -66,6 +73,11 @@ def gen_cases(rng, tier):
         w, ops, meta, gate0 = gen_chain(rng, k, B)
         tags = ["chain", "k%d" % min(k, 4)]
         yield "str_run " + " ".join(fmt_arg(x) for x in [[B, gate0], [3], w] + ops), tags
+    for _ in range(80 if quick else 4000):
+        k = rng.randrange(2, 5)
+        B = rng.choice([64, 128, 256, 8192])
+        w, ops, meta, gate0 = gen_chain(rng, k, B, aborted_rate=0.6)
+        yield "str_run " + " ".join(fmt_arg(x) for x in [[B, gate0], [3], w] + ops), ["chain", "k%d" % min(k, 4), "aborted-in-chain"]
     # into_input at a record boundary with look-ahead
     for _ in range(150 if quick else 5000):
         rid = 1
@@ -202,7 +214,7 @@ def nontrivial(line, tags):
 
 
 def min_classes(tier):
-    return {"k2": 80, "k3": 80, "k4": 80, "into-input": 100, "boundary-flag": 6, "max-record": 4, "leftover-after-done": 120, "compress-partial": 10}
+    return {"k2": 80, "k3": 80, "k4": 80, "into-input": 100, "boundary-flag": 6, "max-record": 4, "leftover-after-done": 120, "compress-partial": 10, "aborted-in-chain": 80}
 
 
 def oracle(line, impl_line):
@@ -227,10 +239,17 @@ def oracle(line, impl_line):
         i += 1
         if t == BEGIN and len(body) == 8 and 1 <= body[0] * 256 + body[1] <= 3 and rid != 0:
             payload = []
+            aborted = False
             while i < len(recs) and not (recs[i][0] == PARAMS and recs[i][1] == rid and not recs[i][2]):
                 if recs[i][0] == PARAMS and recs[i][1] == rid:
                     payload += recs[i][2]
+                if recs[i][0] == ABORT and recs[i][1] == rid:
+                    aborted = True          # aborted during Params: no request is handed out, the next BeginRequest starts afresh
+                    i += 1
+                    break
                 i += 1
+            if aborted:
+                continue
             if i == len(recs):
                 break
             i += 1
